@@ -26,6 +26,9 @@ func checkC06(c *Ctx) {
 
 	c.Rule("C06/R11", "leaf verdict: FilterMatch.Match/MatchString return the regexp's verdict on the whole value when the term is a regexp and equality with the literal otherwise; no other property of the value (such as being empty because the key is absent) decides")
 	c.Rule("C06/R10", "what a /key term is matched against: the sub-name lookup scans all parts of the name in order and takes the first part carrying the key (same rule as C05/R4)")
+	c.Rule("C06/R12", "what a .unit term is matched against (same rule as C04/R5): the base unit, and the unit as written only when one was written")
+	c.Rule("C06/R13", "every sub-expression of an AND/OR/NOT node is compiled into the operator's operand list: no path of the operand loop skips the recursive compilation")
+	c.Rule("C06/R14", "compiled filter functions keep no per-call state: no closure built by NewFilter that takes a result writes memory it captured, directly or through a method of a captured object")
 	c.Rule("C06/R9", "no stale verdicts: any cache inside the filter's compiled closures and the functions they call is keyed by every input of the cached value (a per-filter memo keyed by the base unit alone would hand a later measurement with another written unit the first one's verdict); today there is none, and the detector is shown to work on the unit-tidying cache")
 	p := mustLoad(c, loadOpts{}, "./benchproc", "./benchproc/internal/parse", "./benchfmt", "./benchunit", "./benchmath")
 	c06Combiners(c, p)
@@ -39,6 +42,207 @@ func checkC06(c *Ctx) {
 	c06Memo(c, p)
 	c06Leaf(c, p)
 	c05Lookup(c, p, "C06/R10")
+	c04UnitTerm(c, p, "C06/R12")
+	c06Operands(c, p)
+	c06Reentrant(c, p)
+}
+
+// c06Operands (C06/R13): the compiled operator gets one compiled operand per sub-expression. In the loop over a node's
+// sub-expressions no path returns to the loop head without having passed the recursive compilation of that operand
+// ("*" is the neutral element of AND but the absorbing one of OR: x OR * is *, not x).
+func c06Operands(c *Ctx, p *Prog) {
+	const R = "C06/R13"
+	exprsF := p.Field("benchproc/internal/parse", "FilterOp", "Exprs")
+	nf := p.Fn("benchproc", "NewFilter")
+	if exprsF == nil || nf == nil {
+		c.Undecided(R, "anchor:NewFilter/FilterOp.Exprs", "", "not found")
+		return
+	}
+	// the compiler: NewFilter, its closures and the benchproc functions they call that take a parse.Filter
+	var cands []*ssa.Function
+	for _, f := range staticReach([]*ssa.Function{nf}, bprocPkg) {
+		cands = append(cands, f)
+	}
+	n := 0
+	for _, fn := range cands {
+		for _, lp := range naturalLoops(fn) {
+			// a loop over q.Exprs: indexes (or ranges) the slice loaded from the Exprs field
+			overExprs := false
+			for b := range lp.Blocks {
+				for _, in := range b.Instrs {
+					if ia, ok := in.(*ssa.IndexAddr); ok {
+						if f, _ := loadOfField(ia.X); f == exprsF {
+							overExprs = true
+						}
+					}
+				}
+			}
+			if !overExprs {
+				continue
+			}
+			// blocks that compile an operand: a call whose argument is an element of Exprs
+			compiles := map[*ssa.BasicBlock]bool{}
+			for b := range lp.Blocks {
+				for _, in := range b.Instrs {
+					call, ok := in.(*ssa.Call)
+					if !ok {
+						continue
+					}
+					for _, a := range call.Call.Args {
+						if ld, ok := a.(*ssa.UnOp); ok && ld.Op == token.MUL {
+							if ia, ok := ld.X.(*ssa.IndexAddr); ok {
+								if f, _ := loadOfField(ia.X); f == exprsF {
+									if _, isMod := call.Call.Value.(*ssa.Builtin); !isMod {
+										sc := call.Call.StaticCallee()
+										// the recursive compilation: a call of a closure variable, or of a function that
+										// returns the compiled filter type
+										if sc == nil || sc.Signature.Results().Len() == 2 {
+											compiles[b] = true
+										}
+									}
+								}
+							}
+						}
+					}
+				}
+			}
+			if len(compiles) == 0 {
+				continue
+			}
+			n++
+			start := loopBodyStart(lp)
+			skipAt := ""
+			if start != nil {
+				seen := map[*ssa.BasicBlock]bool{}
+				work := []*ssa.BasicBlock{start}
+				for len(work) > 0 && skipAt == "" {
+					b := work[len(work)-1]
+					work = work[:len(work)-1]
+					if seen[b] || !lp.Blocks[b] || compiles[b] {
+						continue
+					}
+					seen[b] = true
+					for _, s := range b.Succs {
+						if s == lp.Header {
+							skipAt = p.pos(b.Instrs[len(b.Instrs)-1].Pos())
+							for i := len(b.Instrs) - 1; i >= 0 && skipAt == ""; i-- {
+								skipAt = p.pos(b.Instrs[i].Pos())
+							}
+						} else {
+							work = append(work, s)
+						}
+					}
+				}
+			}
+			c.Check(skipAt == "", R, fmt.Sprintf("%s:every-operand-compiled#%d", fnName(fn), n), p.pos(fn.Pos()), "every sub-expression is compiled into the operator's operand list",
+				"a sub-expression of an AND/OR node can be left out of the compiled operand list (the loop continues near "+skipAt+" without compiling it): dropping '*' is harmless under AND but wrong under OR — x OR * must match everything, * OR * becomes the empty OR (false), and -(x OR *) keeps measurements")
+		}
+	}
+	c.Floor(R, "loops compiling the operands of a filter node", n, 1)
+}
+
+// c06Reentrant (C06/R14): a compiled filter keeps no per-call result in captured variables. A Match returned for one
+// result stays valid when the same Filter is asked about the next: no closure created while compiling a filter writes
+// (directly, or through a method it calls on a captured object) memory it captured.
+func c06Reentrant(c *Ctx, p *Prog) {
+	const R = "C06/R14"
+	nf := p.Fn("benchproc", "NewFilter")
+	if nf == nil {
+		c.Undecided(R, "anchor:NewFilter", "", "not found")
+		return
+	}
+	// closures created (transitively) under NewFilter and the functions it calls in benchproc; of those, the ones that
+	// are filter functions: they take a *benchfmt.Result
+	var closures []*ssa.Function
+	for _, f := range staticReach([]*ssa.Function{nf}, bprocPkg) {
+		if f.Parent() == nil {
+			continue
+		}
+		takesResult := false
+		for _, prm := range f.Params {
+			if pt, ok := prm.Type().(*types.Pointer); ok && recvName(pt) == "Result" {
+				takesResult = true
+			}
+		}
+		if takesResult {
+			closures = append(closures, f)
+		}
+	}
+	n := 0
+	for _, cl := range closures {
+		n++
+		bad := ""
+		eachInstr(cl, func(_ *ssa.BasicBlock, in ssa.Instruction) {
+			switch x := in.(type) {
+			case *ssa.Store:
+				if rootIsFreeVar(x.Addr, 0) {
+					bad = p.pos(x.Pos())
+				}
+			case *ssa.MapUpdate:
+				if rootIsFreeVar(x.Map, 0) {
+					// a cache keyed completely is C06/R9's business; a per-call scratch map is not expected here
+				}
+			case *ssa.Call:
+				// a method with a pointer receiver called on a captured object that writes through its receiver
+				sc := x.Call.StaticCallee()
+				if sc == nil || sc.Pkg == nil || sc.Pkg.Pkg.Path() != bprocPkg || sc.Signature.Recv() == nil || len(x.Call.Args) == 0 {
+					return
+				}
+				if !rootIsFreeVar(x.Call.Args[0], 0) {
+					return
+				}
+				writes := false
+				eachInstr(sc, func(_ *ssa.BasicBlock, in2 ssa.Instruction) {
+					if st, ok := in2.(*ssa.Store); ok {
+						// stores through the receiver (its fields or the elements of its slices)
+						a := st.Addr
+						for i := 0; i < 6; i++ {
+							switch y := a.(type) {
+							case *ssa.FieldAddr:
+								a = y.X
+								continue
+							case *ssa.IndexAddr:
+								a = y.X
+								continue
+							case *ssa.UnOp:
+								a = y.X
+								continue
+							}
+							break
+						}
+						if a == ssa.Value(sc.Params[0]) {
+							writes = true
+						}
+					}
+				})
+				if writes {
+					bad = p.pos(x.Pos())
+				}
+			}
+		})
+		c.Check(bad == "", R, fmt.Sprintf("%s:keeps-no-state", fnName(cl)), p.pos(cl.Pos()), "writes nothing it captured", "a compiled filter function writes memory it captured (at "+bad+"): a result kept between calls — a bit mask reused for the next measurement set — means the Match handed out for one result changes when the same Filter is asked about another")
+	}
+	c.Floor(R, "compiled filter functions", n, 3)
+}
+
+// rootIsFreeVar: the address or value is rooted (through fields, elements and loads) in a variable captured by the closure.
+func rootIsFreeVar(v ssa.Value, d int) bool {
+	if d > 8 {
+		return false
+	}
+	switch x := v.(type) {
+	case *ssa.FreeVar:
+		return true
+	case *ssa.FieldAddr:
+		return rootIsFreeVar(x.X, d+1)
+	case *ssa.IndexAddr:
+		return rootIsFreeVar(x.X, d+1)
+	case *ssa.UnOp:
+		return rootIsFreeVar(x.X, d+1)
+	case *ssa.Slice:
+		return rootIsFreeVar(x.X, d+1)
+	}
+	return false
 }
 
 // bitOpOf: the single bitwise operator a mask method applies to its elements ("&", "|", "^").
